@@ -161,7 +161,6 @@ theorem InvB_dataCmd (q : Quirks) (hq : Repaired q) (now : Nat) (c cid : Conn) (
     InvB (dataCmd q now c cid s cmd) := by
   obtain ⟨h1, h2⟩ := InvF_dataCore q hq now c cid s cmd hnx hB ho hcid hok
   unfold dataCmd
-  simp only [hnx, if_false]
   exact InvB_drain q hq _ h1 (Calm_dataCore q now c cid s cmd hB.calm ho hcid) h2
 
 theorem InvB_foldl_dataCmd (q : Quirks) (hq : Repaired q) (now : Nat) (c cid : Conn) (hcid : cid = c ∨ cid = 0)
@@ -299,6 +298,17 @@ theorem InvR_step (q : Quirks) (hq : Repaired q) (s : State) (e : Event) (hR : I
     · cases hb : (s.conns c).blocked with
       | none => exact ⟨InvF_reap s c hR.inv hb, hR.quiet⟩
       | some b => exact ⟨InvF_reap_blocked s c hR.inv hR.quiet, hR.quiet⟩
+    · exact hR
+  | kill c =>
+    simp only [step]
+    simp only [eventOkF, Option.isNone_iff_eq_none] at hok
+    split
+    · exact ⟨InvF_setConn_life s c _ hR.inv (by rw [hok]) rfl, by simp [hR.quiet]⟩
+    · exact hR
+  | hangupDirty c =>
+    simp only [step]
+    split
+    · exact ⟨InvF_setConn_life s c _ hR.inv rfl rfl, by simp [hR.quiet]⟩
     · exact hR
 
 theorem InvR_runFrom (q : Quirks) (hq : Repaired q) (evs : List Event) :
